@@ -25,7 +25,7 @@ values equal (derived PartialEq) to the same JSON read into the generated types;
 the wire equals the scripted JSON and the client returns the matching reply struct / ErrorKind variant; (4) raw \
 requests with a required member dropped or a leaf retyped to a JSON type its IDL type cannot accept are answered \
 with org.varlink.service.InvalidParameter. Two hand-written definitions (an error named like a standard error, map of nullable values, objects with null members, methods named Type / Self / Do whose snake_case form is a Rust keyword) are part of every run. Non-trivial: a value tuple containing a set optional, a non-empty \
-collection, an enum or a keyword-named field; distinct by (definition, method, mode, value hash).";
+collection, an enum or a keyword-named field; distinct by (definition, method, mode, value hash). Every call is made a second time on the same connection and must be served like the first.";
 
 // ------------------------------------------------------------------------------------------------
 // type-directed values
@@ -235,9 +235,13 @@ fn main_source(mods: &[usize]) -> String {
     }
     s.push_str("        _ => return json!({\"harness_error\": \"unknown module\"}),\n    };\n    let (conn, wire) = rt::connect(svc);\n    if req[\"op\"] == \"raw\" {\n        use std::io::Write as _;\n        let mut w = rt::W(wire.clone());\n        let _ = w.write_all(req[\"request\"].as_str().unwrap_or(\"\").as_bytes());\n        let _ = w.write_all(&[0]);\n        let _ = w.flush();\n        let g = wire.lock().unwrap();\n        return json!({\"wire_replies\": rt::split(&g.replies), \"handler_error\": g.handler_error});\n    }\n    let sc = rt::Script {\n        args: req[\"args\"].clone(),\n        reply_kind: req[\"reply_kind\"].as_str().unwrap_or(\"\").to_string(),\n        value: req[\"value\"].clone(),\n        continues: req[\"continues\"].as_array().cloned().unwrap_or_default(),\n    };\n    rt::set_script(sc.clone());\n    let method = req[\"method\"].as_str().unwrap_or(\"\");\n    let mode = req[\"mode\"].as_str().unwrap_or(\"call\");\n    let client = match module {\n");
     for i in mods {
-        s.push_str(&format!("        {} => vlbatch::drv_m{}::client(conn, method, mode, &sc),\n", i, i));
+        s.push_str(&format!("        {} => vlbatch::drv_m{}::client(conn.clone(), method, mode, &sc),\n", i, i));
     }
-    s.push_str("        _ => json!(null),\n    };\n    let g = wire.lock().unwrap();\n    let seen = rt::seen();\n    json!({\n        \"client\": client,\n        \"wire_requests\": rt::split(&g.requests),\n        \"wire_replies\": rt::split(&g.replies),\n        \"server_calls\": seen.len(),\n        \"server_args\": seen.iter().map(|s| s.0.clone()).collect::<Vec<_>>(),\n        \"server_args_equal\": seen.iter().all(|s| s.1),\n        \"handler_error\": g.handler_error,\n    })\n}\n");
+    s.push_str("        _ => json!(null),\n    };\n    let first = {\n        let g = wire.lock().unwrap();\n        (rt::split(&g.requests), rt::split(&g.replies), g.handler_error.clone())\n    };\n    let seen = rt::seen();\n    // the same call once more on the same connection: it must be served like the first\n    let again = if first.2.is_none() && req[\"again\"] == json!(true) {\n        rt::set_script(sc.clone());\n        match module {\n");
+    for i in mods {
+        s.push_str(&format!("            {} => vlbatch::drv_m{}::client(conn.clone(), method, mode, &sc),\n", i, i));
+    }
+    s.push_str("            _ => json!(null),\n        }\n    } else { json!(null) };\n    struct G { requests: Vec<Value>, replies: Vec<Value>, handler_error: Option<String> }\n    let g = G { requests: first.0, replies: first.1, handler_error: first.2 };\n    json!({\n        \"client\": client,\n        \"client_again\": again,\n        \"wire_requests\": g.requests,\n        \"wire_replies\": g.replies,\n        \"server_calls\": seen.len(),\n        \"server_args\": seen.iter().map(|s| s.0.clone()).collect::<Vec<_>>(),\n        \"server_args_equal\": seen.iter().all(|s| s.1),\n        \"handler_error\": g.handler_error,\n    })\n}\n");
     s
 }
 
@@ -414,7 +418,7 @@ pub fn check_case(d: &mut Driver, it: &crate::c09::Item, c: &Case) -> Result<(),
     let idl = &it.idl;
     let m = idl.members.iter().find(|x| x.name == c.method && x.kind() == "method").ok_or_else(|| Fail::new("HARNESS/no-method", c.method.clone()))?;
     let Def::Method(inp, out) = &m.def else { unreachable!() };
-    let obs = d.ask(&json!({"op": "call", "module": c.module, "method": c.method, "mode": c.mode, "args": c.args, "reply_kind": c.reply_kind, "value": c.value, "continues": c.continues}))?;
+    let obs = d.ask(&json!({"op": "call", "module": c.module, "method": c.method, "mode": c.mode, "args": c.args, "reply_kind": c.reply_kind, "value": c.value, "continues": c.continues, "again": true}))?;
     if obs["panic"] == json!(true) {
         return Err(Fail::new("bindings/panic", "the generated bindings (or the runtime under them) panicked during the round trip".to_string()));
     }
@@ -491,6 +495,12 @@ pub fn check_case(d: &mut Driver, it: &crate::c09::Item, c: &Case) -> Result<(),
                 format!("method {}: reply #{} on the wire is {} but the implementation replied {} (continues={}, error={:?})", c.method, k, w, val, cont, err),
             ));
         }
+    }
+    if !obs["client_again"].is_null() && obs["client_again"] != obs["client"] {
+        return Err(Fail::new(
+            "bindings/second-call-on-connection-differs",
+            format!("method {} ({}): the same call made again on the same connection returned {} - the first returned {}", c.method, c.mode, obs["client_again"], obs["client"]),
+        ));
     }
     let results = obs["client"]["results"].as_array().cloned().unwrap_or_default();
     if c.mode == "oneway" {
